@@ -252,7 +252,7 @@ class EditDistance(SequenceEdit):
             # Tighten the entire fringe diagonal until every node in it is definitive
             if not self._next_fringe():
                 assert self.is_complete()
-                if not self.edit_matrix[-1][-1].bounds().definitive():
+                if self.edit_matrix is not None and not self.edit_matrix[-1][-1].bounds().definitive():
                     ret = self.tighten_bounds()
                 else:
                     ret = False
